@@ -87,7 +87,7 @@ PATS = ['cafe\u0301', 'caf\xe9', 'caf*', '\u212b', '\xc5', 'report', 'report ', 
 def gen(rng, n):
     scns, metas = [], []
     for i in range(n):
-        lay = scen.Layout(rng, nested=False, home_on_own_volume=False, xdg='unset')
+        lay = scen.Layout(rng, nested=False, home_on_own_volume=False, xdg=rng.choice(['unset', 'unset', 'empty', 'set']))
         dirs = [(lay.home_trash, '/', 'home')]
         for v in lay.vols:
             if lay.top[v][1] == 'dir':
@@ -108,7 +108,13 @@ def gen(rng, n):
                 full = os.path.join(vol, pathv)
             name = 'e%d' % k
             pk = rng.choice(['f', 'f', 'd', 'l'])
-            nodes += scen.entry(td, name, pathv, '2024-01-01T00:00:00', pk, data=(rng.choice(['/canary/file', 'nowhere', '../gone']) if pk == 'l' else None))
+            override = None
+            if rng.random() < 0.2:
+                # a second Path= line (an extra group written by another tool, a hand edit): the FIRST one is the entry's location
+                decoy = rng.choice(['other/' + rng.choice(NAMES), '/home/u/' + rng.choice(NAMES), rng.choice(NAMES)])
+                override = scen.TI % (scen.quote(pathv), '2024-01-01T00:00:00') + rng.choice(['', '[Desktop Entry]\n']) + 'Path=%s\n' % scen.quote(decoy)
+            nodes += scen.entry(td, name, pathv, '2024-01-01T00:00:00', pk, data=(rng.choice(['/canary/file', 'nowhere', '../gone']) if pk == 'l' else None),
+                                info_override=override)
             ents.append({'td': td, 'name': name, 'full': full})
         # neighbours without a usable Path: they can never match, they must stay, and they must not stop the run (C19)
         mal = []
